@@ -355,7 +355,8 @@ fn wait_ok(d: &dyn Drv) -> Result<(), String> {
     }
 }
 
-pub fn run_history(flavor: Flavor, h: &HCfg) -> Hist {
+/// Reset the process-global hooks, build the cache under test and start recording.
+pub fn begin(flavor: Flavor, h: &HCfg) -> Arc<dyn Drv> {
     stretto::verif::reset();
     val::log_enable(false);
     let _ = val::take_log();
@@ -366,11 +367,15 @@ pub fn run_history(flavor: Flavor, h: &HCfg) -> Hist {
     sched::set_role(100);
     phase("build");
     let d = build(flavor, &h.cfg).expect("build cache");
-    let buffer_cap = d.buffer().1;
+    sched::record(true);
+    d
+}
+
+pub fn run_history(flavor: Flavor, h: &HCfg) -> Hist {
+    let d = begin(flavor, h);
     if let Some((pm, us)) = h.delays {
         sched::arm_delays(h.seed | 1, pm, us);
     }
-    sched::record(true);
     let ids = Arc::new(AtomicU64::new((h.seed << 20) | 1));
     let clears = Arc::new((AtomicU64::new(0), AtomicU64::new(0)));
     let stop = Arc::new(AtomicBool::new(false));
@@ -421,6 +426,13 @@ pub fn run_history(flavor: Flavor, h: &HCfg) -> Hist {
         let _ = t.join();
     }
     sched::arm_delays(1, 0, 0);
+    finish(flavor, h, d, ops, ticks.load(Ordering::SeqCst), (bchecks, bskipped, bsingle, bmulti, bbad))
+}
+
+/// Quiescence protocol, final observations, close, collection of the logs.
+pub fn finish(flavor: Flavor, h: &HCfg, d: Arc<dyn Drv>, ops: Vec<OpRec>, ticks_sent_so_far: u64, barrier: (u64, u64, u64, u64, Vec<(u64, u64, String)>)) -> Hist {
+    let (bchecks, bskipped, bsingle, bmulti, bbad) = barrier;
+    let buffer_cap = d.buffer().1;
     // ---- quiescence protocol: drain buffer, advance, tick, tick handled, drain again
     phase("quiesce");
     let mut qerr = None;
@@ -428,7 +440,7 @@ pub fn run_history(flavor: Flavor, h: &HCfg) -> Hist {
         qerr = Some(e);
     }
     clock::advance(Duration::from_secs(5));
-    let mut sent = ticks.load(Ordering::SeqCst);
+    let mut sent = ticks_sent_so_far;
     if ticker::tick() {
         sent += 1;
     }
